@@ -11,8 +11,12 @@ import sys
 VERIF = os.path.dirname(os.path.dirname(os.path.abspath(__file__)))
 
 
+import itertools
+_ctr = itertools.count()
+
+
 def one(mid: str, checks, tier: str):
-    wt = "/tmp/verif-mm-%s-%d" % (mid, os.getpid())
+    wt = "/tmp/verif-mm-%s-%d-%d" % (mid, os.getpid(), next(_ctr))
     subprocess.run(["git", "-C", "/repo", "worktree", "add", "-q", "--detach", wt, "HEAD"], check=True)
     out = []
     try:
